@@ -54,6 +54,15 @@ def sysStep (st : Store) (s : SysState) (toks : List String) : Option (SysState 
               [{ name := name, process := if proc == "-" then none else some proc, stock := x, inflow := y, outflow := z }] } }, "ok")
         | _, _, _ => (s, "err")
       | _, _ => (s, "err"))
+  | ["sys_scale", f] =>
+    -- every flow and stock value multiplied in place: the system object stays the same one
+    some (match parseRat? f with
+      | some q =>
+        let sc (a : FArr FV) : FArr FV := ⟨a.dims, (a.values.map (· * FV.num q)).memo (.num 0)⟩
+        ({ s with sys := { s.sys with
+            flows := s.sys.flows.map (fun fl => { fl with arr := sc fl.arr }),
+            stocks := s.sys.stocks.map (fun st => { st with stock := sc st.stock, inflow := sc st.inflow, outflow := sc st.outflow }) } }, "ok")
+      | none => (s, "err"))
   | ["balance"] =>
     some (s, match massBalance s.sys with
       | some bs => "ok " ++ " ; ".intercalate (bs.map fun b => s!"{b.1}={showFArrFV ⟨b.2.dims, b.2.values.memo (.num 0)⟩}")
